@@ -214,6 +214,8 @@ def check(pid, tier):
         nontrivial += total_extra(res, work, tier)
     if pid == "C07":
         splitter_design(res, work, tier)
+        from libcheck import builder_part
+        builder_part(res, work, tier, "C07")
     res.cov["traces_validated_against_impl"] = total_events
     res.cov["evaluations"] = total_events
     res.cov["distinct_nontrivial"] = nontrivial
